@@ -66,13 +66,13 @@ def main():
     n_esc = runner.escalate(results, esc_s, args.jobs, log)
     log(f"  escalated {n_esc} obligations to the portfolio ({esc_s}s budget)")
     # further rounds: branch sides that were only skipped on sample evidence and could not be refuted are explored
-    for rnd in range(2, 5):
+    for rnd in range(2, (3 if tier == 'quick' else 5)):
         roots = {}
         for n, r in results.items():
             for rec in r['records']:
                 if rec.get('kind') == 'side' and rec['status'] in ('sat', 'unknown') and not rec.get('explored'):
                     rec['explored'] = True
-                    roots.setdefault(n, []).append([tuple(x) for x in rec['prefix']])
+                    roots.setdefault(n, []).append(dict(prefix=[tuple(x) for x in rec['prefix']], env=rec.get('env')))
         if not roots:
             break
         log(f"  round {rnd}: exploring {sum(len(v) for v in roots.values())} unrefuted branch sides in {len(roots)} harnesses")
